@@ -167,8 +167,8 @@ func genLeafConc(r *rand.Rand, tier string) []string {
 		}
 		out = append(out, ln)
 	}
-	// A leaf being started against Left, access by access (`pts=fine`): one unstarted leaf (a live or a finished unlimited
-	// part, a once), one or two callers whose first Next starts it, one or two that ask Left; the stores inside the once and
+	// A leaf being started against Left, access by access (`pts=fine`): one unstarted leaf (a live unlimited part, a
+	// once with 0-2 tokens), one or two callers whose first Next starts it, one or two that ask Left; the stores inside the once and
 	// the loads of Left are separate points. Judged like a free run: every Left must be the flat spec's answer for some
 	// number of draws inside the call (a live unlimited part: -1, never 0).
 	nf := 40
@@ -181,7 +181,7 @@ func genLeafConc(r *rand.Rand, tier string) []string {
 		case 0:
 			t = mkFin(fmt.Sprintf("once:%d", 1+r.Intn(2)))
 		case 1:
-			t = &node{kind: "U", dur: 1e6}
+			t = mkFin("once:0") // (not a 1 ms unlimited part: it would end while its starter is parked inside the once)
 		default:
 			t = &node{kind: "U", dur: twentyHours}
 		}
